@@ -219,7 +219,15 @@ CTrQ ==
 CTrIo ==
   /\ Ev("io")
   /\ Step(<< O("C15", "io:" \o Rec[l].what, Rec[l].inv_in \/ (Rec[l].c_ok /\ Rec[l].c_size > 0)),
-             O(P, "capi.mirror:" \o Rec[l].what, Rec[l].inv_in \/ Tiny \/ Rec[l].r_ok = Rec[l].c_ok) >>)
+             O(P, "capi.mirror:" \o Rec[l].what, Rec[l].inv_in \/ Tiny \/ Rec[l].r_ok = Rec[l].c_ok),
+             \* DOT dump: the same function boxes as the Rust dump of the same (function, name)
+             \* pairs: labels in order, and boxes point to the same node exactly when they do there
+             O(P, "capi.mirror.labels:" \o Rec[l].what,
+               (Has(Rec[l], "c_labels") /\ Rec[l].c_ok /\ Rec[l].r_ok /\ ~Tiny) =>
+                 LET c == Rec[l].c_labels r == Rec[l].r_labels IN
+                 /\ Len(c) = Len(r)
+                 /\ \A i \in 1 .. Len(c) : c[i][1] = r[i][1]
+                 /\ \A i, j \in 1 .. Len(c) : (c[i][2] = c[j][2]) <=> (r[i][2] = r[j][2])) >>)
   /\ UNCHANGED <<kind, n, l2v, hs, gcN, roN, aux, cx>>
 
 (* ---- observations through the C interface (eval, node_count, satisfiable,
